@@ -6,8 +6,6 @@ mod c_lerp;
 mod c_robust;
 mod c_timeline;
 mod c_timescale;
-mod desc;
-mod oracle;
 
 use mv_engine::Run;
 
